@@ -21,6 +21,8 @@ import (
 	"github.com/ava-labs/hypersdk/codec"
 	"github.com/ava-labs/hypersdk/consts"
 	"github.com/ava-labs/hypersdk/examples/morpheusvm/actions"
+	"github.com/ava-labs/hypersdk/verifharness/drivers/abi/dupa"
+	"github.com/ava-labs/hypersdk/verifharness/drivers/abi/dupb"
 	"github.com/ava-labs/hypersdk/verifharness/emit"
 )
 
@@ -166,6 +168,8 @@ const (
 	tNoTag
 	tWithEmpty
 	tSigned
+	tDupA // two different structs with the same name "Dup" (packages dupa / dupb), never in one ABI
+	tDupB
 	tTagOpts // describe only
 	nTypes
 )
@@ -191,6 +195,8 @@ var allTypes = []entry{
 	{"NoTag", &NoTag{}, 10},
 	{"WithEmpty", &WithEmpty{}, 11},
 	{"Signed", &Signed{}, 12},
+	{"Dup", &dupa.Dup{}, 15},
+	{"Dup", &dupb.Dup{}, 16},
 	{"TagOpts", &TagOpts{}, 14},
 }
 
@@ -830,6 +836,9 @@ func genRoots(r *rand.Rand, must int) (rootSpec, int) {
 			}
 			if seen[c] || (c == must && i != pos) {
 				continue
+			}
+			if (c == tDupA && (seen[tDupB] || must == tDupB)) || (c == tDupB && (seen[tDupA] || must == tDupA)) {
+				continue // the two same-named types never share an ABI
 			}
 			seen[c] = true
 			rs.Types = append(rs.Types, c)
